@@ -85,9 +85,30 @@ var customSets = map[int][]ap.Stack{
 	101: {{Locs: []ap.Loc{{Addr: 0, Map: -1, Lines: []ap.Line{{Func: "bar", Sys: "bar", File: "x.go", Start: 1, Line: 10}}}}}},
 }
 
+// relocated (Set 102): stack set 3 (a1|b ; a1|c) of the same two binaries loaded 1 MiB higher (ASLR):
+// the same entries, so sums and differences with the other sets must come out entry by entry.
+const relocatedSet, relocation = 102, 0x100000
+
 func build(p P) *ap.AP {
 	v := typeVariants[p.TV]
 	a := &ap.AP{Types: v.types, Maps: enum.Maps2, Period: 1, PeriodType: &ap.VT{Type: "n", Unit: "count"}}
+	if p.Set == relocatedSet {
+		q := p
+		q.Set = 3
+		a = build(q)
+		a.Maps = append([]ap.Map{}, a.Maps...)
+		for i := range a.Maps {
+			a.Maps[i].Start += relocation
+			a.Maps[i].Limit += relocation
+		}
+		for i := range a.Stacks {
+			a.Stacks[i] = a.Stacks[i].Clone()
+			for j := range a.Stacks[i].Locs {
+				a.Stacks[i].Locs[j].Addr += relocation
+			}
+		}
+		return a
+	}
 	if cs, ok := customSets[p.Set]; ok {
 		for i, st := range cs {
 			pat := valuePatterns[p.Val][i%len(valuePatterns[p.Val])]
@@ -119,10 +140,16 @@ type combined struct {
 	order  []string
 }
 
-func stackKey(s *ap.Stack) string {
+// stackKey identifies a stack by what its frames are: the binary (file name) and the address relative to
+// the start of its mapping - not the absolute address, which differs between runs of one binary.
+func stackKey(a *ap.AP, s *ap.Stack) string {
 	var b strings.Builder
 	for _, l := range s.Locs {
-		fmt.Fprintf(&b, "%x/%d[", l.Addr, l.Map)
+		if l.Map >= 0 && l.Map < len(a.Maps) {
+			fmt.Fprintf(&b, "%s+%x[", a.Maps[l.Map].File, l.Addr-a.Maps[l.Map].Start)
+		} else {
+			fmt.Fprintf(&b, "%x/-[", l.Addr)
+		}
 		for _, ln := range l.Lines {
 			fmt.Fprintf(&b, "%s:%s:%d;", ln.Func, ln.File, ln.Line)
 		}
@@ -172,10 +199,17 @@ func combine(aps []*ap.AP, signs []int64) (*combined, bool) {
 		}
 		for si := range a.Stacks {
 			s := &a.Stacks[si]
-			k := stackKey(s)
+			k := stackKey(a, s)
 			if _, ok := c.stacks[k]; !ok {
 				c.stacks[k] = make([]int64, len(c.types))
-				c.locs[k] = s.Locs
+				// kept in the address space of the canonical binaries (asAP uses enum.Maps2)
+				locs := append([]ap.Loc(nil), s.Locs...)
+				for i, l := range locs {
+					if l.Map >= 0 && l.Map < len(a.Maps) && l.Map < len(enum.Maps2) {
+						locs[i].Addr = l.Addr - a.Maps[l.Map].Start + enum.Maps2[l.Map].Start
+					}
+				}
+				c.locs[k] = locs
 				c.order = append(c.order, k)
 			}
 			for j := range c.types {
@@ -222,7 +256,7 @@ func Run(c *vk.Ctx) {
 			}
 		}
 	}
-	all = append(all, P{100, 1, 0}, P{101, 1, 0}, P{101, 2, 2})
+	all = append(all, P{100, 1, 0}, P{101, 1, 0}, P{101, 2, 2}, P{relocatedSet, 1, 0}, P{relocatedSet, 0, 2})
 	data := map[string][]byte{}
 	aps := map[string]*ap.AP{}
 	for _, p := range all {
@@ -382,7 +416,7 @@ func checkCase(c *vk.Ctx, data map[string][]byte, aps map[string]*ap.AP, srcs, b
 	gotSum := map[string][]int64{}
 	for i := range got.Stacks {
 		s := &got.Stacks[i]
-		k := stackKey(s)
+		k := stackKey(got, s)
 		if gotSum[k] == nil {
 			gotSum[k] = make([]int64, len(got.Types))
 		}
